@@ -183,7 +183,7 @@ class FieldCodeGenerator:
             self._data.fields.add_import('Optional', 'typing')
 
         self._context.accessible_fields[self._name] = FieldData(
-            self._name, field_type, self._offset, self._array_field
+            self._name, field_type, self._offset, self._array_field, self._optional
         )
 
         self._data.fields.add_line(f"_{self._name}: {python_type_name}")
@@ -234,9 +234,13 @@ class FieldCodeGenerator:
         if self._length_string in self._context.length_field_is_referenced_map:
             self._context.length_field_is_referenced_map[self._length_string] = True
             length_field_data = self._context.accessible_fields[self._length_string]
-            self._data.init_body.add_line(
-                f'self._{length_field_data.name} = len(self._{self._name})'
-            )
+            length_expression = f'len(self._{self._name})'
+            if self._optional:
+                absent_length = 'None' if length_field_data.optional else '0'
+                length_expression = (
+                    f'{absent_length} if self._{self._name} is None else {length_expression}'
+                )
+            self._data.init_body.add_line(f'self._{length_field_data.name} = {length_expression}')
 
     def generate_serialize(self):
         self._generate_serialize_missing_optional_guard()
